@@ -22,7 +22,15 @@ package main
 //   * whether the signal goroutine recovers panics, and whether CallSignal checks the signal lookup;
 //   * whether sendRuntimeMessage gives up waiting for the encoder after a timeout (then the mutex
 //     is released while the Encode may still be running: writer atomicity is an assumption for
-//     outputs that stall longer than that).
+//     outputs that stall longer than that);
+//   * every access (read, write, delete, range, addr) to every field of atpServerSession that is
+//     not a channel, mutex or wait group, with its enclosing function and the goroutine context it
+//     runs in: `init` (initializeATPServerSession, called before any `go`), `main` (RunATPServer's
+//     own goroutine: handleClosure), `loop` (run() and what it calls, outside `go` literals: the
+//     read loop's goroutine) or `spawned` (lexically inside a `go func` literal, or in a function
+//     started with `go` / called from such a literal, transitively: runStep, the signal goroutine's
+//     body, the closer). A function reached from several contexts lists one entry per context.
+//     The model gives `runningSteps` (a plain map, no lock) to the read loop alone.
 
 import (
 	"fmt"
@@ -52,6 +60,8 @@ type atpsFactsOut struct {
 	sigLookupOK    bool
 	encodeTimeout  bool
 	waitGroupFirst bool // RunATPServer calls wg.Add(1) before `go ... run()`
+	fields         [][2]string // unsynchronised fields of atpServerSession: name, type
+	accesses       [][4]string // field, kind, function, context
 	initFirst      bool // run() calls sendInitialMessagesToClient before runATPReadLoop, nobody else calls it
 }
 
@@ -500,6 +510,8 @@ func atpsFacts(a Args) {
 		out.encodeTimeout = atpsContainsCall(fd.Body, "time.After")
 	}
 
+	out.fields, out.accesses = atpsFieldAccesses(srv, funcs)
+
 	sort.Slice(out.encodes, func(i, j int) bool { return out.encodes[i][0]+out.encodes[i][1] < out.encodes[j][0]+out.encodes[j][1] })
 	sort.Slice(out.closes, func(i, j int) bool { return out.closes[i][0]+out.closes[i][1] < out.closes[j][0]+out.closes[j][1] })
 	sort.Slice(out.sends, func(i, j int) bool { return out.sends[i][0]+out.sends[i][1] < out.sends[j][0]+out.sends[j][1] })
@@ -538,6 +550,37 @@ func atpsFacts(a Args) {
 	fmt.Fprintf(&b, "/-- the signal goroutine recovers panics -/\ndef signalGoroutineRecovers : Bool := %v\n", out.sigRecovers)
 	fmt.Fprintf(&b, "/-- CallableSchema.CallSignal looks the signal handler up with the two-value form -/\ndef callSignalChecksLookup : Bool := %v\n", out.sigLookupOK)
 	fmt.Fprintf(&b, "/-- sendRuntimeMessage stops waiting for the encoder after a timeout -/\ndef encodeWaitHasTimeout : Bool := %v\n", out.encodeTimeout)
+	b.WriteString("\nstructure Access where\n  field : String\n  kind : String\n  fn : String\n  ctx : String\nderiving DecidableEq, Repr\n\n")
+	b.WriteString("/-- the fields of atpServerSession that are not a channel, mutex or wait group: name, type -/\n")
+	b.WriteString("def sharedFields : List (String × String) := [")
+	for i, f := range out.fields {
+		if i > 0 {
+			b.WriteString(", ")
+		}
+		fmt.Fprintf(&b, "(%q, %q)", f[0], f[1])
+	}
+	b.WriteString("]\n\n")
+	b.WriteString("/-- those of them that are maps (not even concurrent reads and writes are allowed) -/\ndef mapFields : List String := [")
+	nm := 0
+	for _, f := range out.fields {
+		if strings.HasPrefix(f[1], "map[") {
+			if nm > 0 {
+				b.WriteString(", ")
+			}
+			fmt.Fprintf(&b, "%q", f[0])
+			nm++
+		}
+	}
+	b.WriteString("]\n\n")
+	b.WriteString("/-- every access to such a field: kind (read, write, delete, range, addr), enclosing function, goroutine\n    context (init, main, loop, spawned) -/\n")
+	b.WriteString("def accesses : List Access := [")
+	for i, x := range out.accesses {
+		if i > 0 {
+			b.WriteString(",")
+		}
+		fmt.Fprintf(&b, "\n  ⟨%q, %q, %q, %q⟩", x[0], x[1], x[2], x[3])
+	}
+	b.WriteString("]\n")
 	b.WriteString("\nend Arca.Gen.AtpServerFacts\n")
 	if a.Out == "" || a.Out == "." {
 		fmt.Print(b.String())
@@ -547,4 +590,226 @@ func atpsFacts(a Args) {
 		fmt.Fprintln(os.Stderr, "atpserverfacts:", err)
 		os.Exit(2)
 	}
+}
+
+// atpsTypeString renders a field type.
+func atpsTypeString(e ast.Expr) string {
+	switch x := e.(type) {
+	case *ast.Ident:
+		return x.Name
+	case *ast.SelectorExpr:
+		return atpsTypeString(x.X) + "." + x.Sel.Name
+	case *ast.StarExpr:
+		return "*" + atpsTypeString(x.X)
+	case *ast.MapType:
+		return "map[" + atpsTypeString(x.Key) + "]" + atpsTypeString(x.Value)
+	case *ast.ArrayType:
+		return "[]" + atpsTypeString(x.Elt)
+	case *ast.ChanType:
+		return "chan " + atpsTypeString(x.Value)
+	case *ast.InterfaceType:
+		return "interface"
+	case *ast.FuncType:
+		return "func"
+	}
+	return "?"
+}
+
+// atpsFieldAccesses lists the unsynchronised fields of atpServerSession and every access to them,
+// with the goroutine context of the access.
+func atpsFieldAccesses(srv *ast.File, funcs map[string]*ast.FuncDecl) (fields [][2]string, accesses [][4]string) {
+	isField := map[string]bool{}
+	for _, d := range srv.Decls {
+		gd, ok := d.(*ast.GenDecl)
+		if !ok {
+			continue
+		}
+		for _, sp := range gd.Specs {
+			ts, ok := sp.(*ast.TypeSpec)
+			if !ok || ts.Name.Name != "atpServerSession" {
+				continue
+			}
+			st, ok := ts.Type.(*ast.StructType)
+			if !ok {
+				continue
+			}
+			for _, f := range st.Fields.List {
+				ty := atpsTypeString(f.Type)
+				if _, isChan := f.Type.(*ast.ChanType); isChan {
+					continue
+				}
+				switch strings.TrimPrefix(ty, "*") {
+				case "sync.Mutex", "sync.RWMutex", "sync.WaitGroup":
+					continue
+				}
+				for _, n := range f.Names {
+					isField[n.Name] = true
+					fields = append(fields, [2]string{n.Name, ty})
+				}
+			}
+		}
+	}
+	sort.Slice(fields, func(i, j int) bool { return fields[i][0] < fields[j][0] })
+
+	// is initializeATPServerSession called before the first `go` of RunATPServer?
+	initFirst := false
+	if fd, ok := funcs["RunATPServer"]; ok {
+		for _, st := range fd.Body.List {
+			if _, isGo := st.(*ast.GoStmt); isGo {
+				break
+			}
+			if atpsContainsCall(st, "initializeATPServerSession") {
+				initFirst = true
+			}
+		}
+	}
+
+	seen := map[[4]string]bool{}
+	record := func(field, kind, fn, ctx string) {
+		k := [4]string{field, kind, fn, ctx}
+		if !seen[k] {
+			seen[k] = true
+			accesses = append(accesses, k)
+		}
+	}
+	// base returns the field selected by e when e is `x.f`, `x.f[i]`, `(x.f)`, `*x.f` with x an
+	// identifier and f one of the fields.
+	var base func(e ast.Expr) (*ast.SelectorExpr, bool)
+	base = func(e ast.Expr) (*ast.SelectorExpr, bool) {
+		switch x := e.(type) {
+		case *ast.SelectorExpr:
+			if _, ok := x.X.(*ast.Ident); ok && isField[x.Sel.Name] {
+				return x, true
+			}
+		case *ast.IndexExpr:
+			return base(x.X)
+		case *ast.ParenExpr:
+			return base(x.X)
+		case *ast.StarExpr:
+			return base(x.X)
+		}
+		return nil, false
+	}
+
+	visited := map[string]bool{} // function + "/" + context
+	var visitFunc func(name, ctx string)
+	var visit func(n ast.Node, fn, ctx string)
+	calleeName := func(c *ast.CallExpr) string {
+		switch f := c.Fun.(type) {
+		case *ast.SelectorExpr:
+			if _, ok := funcs[f.Sel.Name]; ok {
+				return f.Sel.Name
+			}
+		case *ast.Ident:
+			if _, ok := funcs[f.Name]; ok {
+				return f.Name
+			}
+		}
+		return ""
+	}
+	visit = func(n ast.Node, fn, ctx string) {
+		handled := map[*ast.SelectorExpr]bool{}
+		ast.Inspect(n, func(x ast.Node) bool {
+			switch y := x.(type) {
+			case *ast.GoStmt:
+				if lit, ok := y.Call.Fun.(*ast.FuncLit); ok {
+					litCtx := "spawned"
+					if fn == "RunATPServer" && atpsContainsCall(lit.Body, ".run") {
+						litCtx = "loop"
+					}
+					for _, a := range y.Call.Args {
+						visit(a, fn, ctx)
+					}
+					visit(lit.Body, fn, litCtx)
+				} else {
+					if name := calleeName(y.Call); name != "" {
+						visitFunc(name, "spawned")
+					}
+					for _, a := range y.Call.Args {
+						visit(a, fn, ctx)
+					}
+				}
+				return false
+			case *ast.AssignStmt:
+				for _, l := range y.Lhs {
+					if sel, ok := base(l); ok {
+						handled[sel] = true
+						record(sel.Sel.Name, "write", fn, ctx)
+					}
+				}
+			case *ast.IncDecStmt:
+				if sel, ok := base(y.X); ok {
+					handled[sel] = true
+					record(sel.Sel.Name, "write", fn, ctx)
+				}
+			case *ast.RangeStmt:
+				if sel, ok := base(y.X); ok {
+					handled[sel] = true
+					record(sel.Sel.Name, "range", fn, ctx)
+				}
+			case *ast.UnaryExpr:
+				if y.Op == token.AND {
+					if sel, ok := base(y.X); ok {
+						handled[sel] = true
+						record(sel.Sel.Name, "addr", fn, ctx)
+					}
+				}
+			case *ast.CallExpr:
+				if id, ok := y.Fun.(*ast.Ident); ok && id.Name == "delete" && len(y.Args) == 2 {
+					if sel, ok := base(y.Args[0]); ok {
+						handled[sel] = true
+						record(sel.Sel.Name, "delete", fn, ctx)
+					}
+				}
+				if name := calleeName(y); name != "" {
+					visitFunc(name, ctx)
+				}
+			case *ast.SelectorExpr:
+				if _, ok := y.X.(*ast.Ident); ok && isField[y.Sel.Name] && !handled[y] {
+					record(y.Sel.Name, "read", fn, ctx)
+				}
+			}
+			return true
+		})
+	}
+	visitFunc = func(name, ctx string) {
+		if name == "initializeATPServerSession" && ctx == "main" && initFirst {
+			ctx = "init"
+		}
+		k := name + "/" + ctx
+		if visited[k] {
+			return
+		}
+		visited[k] = true
+		if fd, ok := funcs[name]; ok {
+			visit(fd.Body, name, ctx)
+		}
+	}
+	visitFunc("RunATPServer", "main")
+	// functions nobody in this file calls (none today) are listed under the context "unreached"
+	var names []string
+	for n := range funcs {
+		names = append(names, n)
+	}
+	sort.Strings(names)
+	for _, n := range names {
+		reached := false
+		for k := range visited {
+			if strings.HasPrefix(k, n+"/") {
+				reached = true
+			}
+		}
+		if !reached && n != "String" {
+			visitFunc(n, "unreached")
+		}
+	}
+	sort.Slice(accesses, func(i, j int) bool {
+		for k := 0; k < 4; k++ {
+			if accesses[i][k] != accesses[j][k] {
+				return accesses[i][k] < accesses[j][k]
+			}
+		}
+		return false
+	})
+	return fields, accesses
 }
